@@ -3,6 +3,7 @@
 //	ty run -out obs.ndjson [-yang] vec_*.ndjson   execute every vector (chain + probe lexemes) on the real
 //	                                              compiler and validators, one observation per vector
 //	ty render < vector.json                       print the YANG modules of one vector
+//	ty try -leaf c/x1 -v v1,v2 a.yang b.yang      compile hand-written modules, show what the leaf accepts (for exploring)
 package main
 
 import (
@@ -11,8 +12,10 @@ import (
 	"flag"
 	"fmt"
 	"os"
+	"path/filepath"
 	"runtime"
 	"sort"
+	"strings"
 	"sync"
 
 	"verif/harness/internal/tym"
@@ -58,6 +61,8 @@ func main() {
 		conc(os.Args[2:])
 	case "render":
 		render()
+	case "try":
+		try(os.Args[2:])
 	default:
 		fmt.Fprintln(os.Stderr, "usage: ty run|conc|render ...")
 		os.Exit(2)
@@ -135,6 +140,26 @@ func render() {
 	sort.Strings(names)
 	for _, n := range names {
 		fmt.Print(mods[n])
+	}
+}
+
+// try: compile hand-written module files and print the verdict of every value for one leaf (no expectations)
+func try(args []string) {
+	fs := flag.NewFlagSet("try", flag.ExitOnError)
+	leaf := fs.String("leaf", "c/x1", "data path of the leaf")
+	vals := fs.String("v", "", "comma-separated values")
+	fs.Parse(args)
+	mods := map[string]string{}
+	for _, f := range fs.Args() {
+		b, err := os.ReadFile(f)
+		if err != nil {
+			fmt.Fprintln(os.Stderr, err)
+			os.Exit(2)
+		}
+		mods[strings.TrimSuffix(filepath.Base(f), ".yang")] = string(b)
+	}
+	for _, l := range tym.Try(mods, strings.Split(*leaf, "/"), strings.Split(*vals, ",")) {
+		fmt.Println(l)
 	}
 }
 
